@@ -29,7 +29,8 @@ Print Assumptions C11_membership.
 
 (* the sample is internally ordered (replacement / proportion: the constructor sorts; single pass:
    np.repeat of arange by non-negative multiplicities indexes a sorted array in order, which is what
-   justifies is_sorted=True), hence (C01) its confusion matrices are direct counting *)
+   justifies is_sorted=True; the at-least-one correction only sets one multiplicity to 1, so this is
+   unaffected), hence (C01) its confusion matrices are direct counting *)
 Theorem C11_sample_wf : forall c s h b rest calls,
   not_callable c -> wf s ->
   bootstrap_sample c s h = Ok (b, rest, calls) -> Forall draw_ok calls -> wf b.
@@ -71,7 +72,7 @@ Theorem C11_single_pass_by_label_easy_strata : forall c s h b rest calls,
 Proof. exact bs_single_pass_by_label_easy. Qed.
 Print Assumptions C11_single_pass_by_label_easy_strata.
 
-(* at least one scored positive / negative whenever the source has one: replacement ... *)
+(* at least one scored positive / negative whenever the source has one: replacement, ... *)
 Theorem C11_replacement_nonempty : forall c s h b rest calls,
   resolve_method s c = MReplacement -> 0 <= easy_pos s -> 0 <= easy_neg s ->
   bootstrap_sample c s h = Ok (b, rest, calls) -> Forall draw_ok calls ->
@@ -80,7 +81,7 @@ Theorem C11_replacement_nonempty : forall c s h b rest calls,
 Proof. exact bs_replacement_nonempty. Qed.
 Print Assumptions C11_replacement_nonempty.
 
-(* ... and proportion sampling, which draws WITHOUT replacement the requested fraction:
+(* ... proportion sampling, which draws WITHOUT replacement the requested fraction:
    sizes max(int(ratio*n), 1), easy counts int(ratio*easy), and the sample is the image of a
    duplicate-free list of in-range source positions (a sub-multiset of the source) *)
 Theorem C11_proportion : forall c s h b rest calls rt,
@@ -94,17 +95,32 @@ Theorem C11_proportion : forall c s h b rest calls rt,
 Proof. exact bs_proportion. Qed.
 Print Assumptions C11_proportion.
 
-(* The non-emptiness clause is FALSE for explicit single-pass sampling: nothing corrects an all-zero
-   multiplicity vector.  Witness: pos=[-11,-11], neg=[962], sampling_method="single_pass" and the
-   history NumPy really produces after np.random.seed(6)  (replayed on the implementation by
-   ./check C11: known finding C11/single-pass-empty-class). *)
-Theorem C11_single_pass_nonempty_refuted :
-  exists c s h b rest calls,
-    sampling_method c = MSinglePass /\ wf s /\ 0 < len (pos s) /\ 0 < len (neg s) /\
-    bootstrap_sample c s h = Ok (b, rest, calls) /\ Forall draw_ok calls /\ rest = [] /\
-    pos b = [].
-Proof. exact single_pass_nonempty_refuted. Qed.
-Print Assumptions C11_single_pass_nonempty_refuted.
+(* ... and single-pass sampling (explicit, or 'dynamic' above the switch; None or by_label): since
+   repo commit c42c88e an all-zero multiplicity vector gets one entry set to 1 (an extra scalar
+   np.random.choice(n) draw), so for EVERY history within the contract both classes keep a scored
+   sample.  (Before that commit this clause was refuted: C11_single_pass_nonempty_refuted, finding
+   C11/single-pass-empty-class, now fixed.)  A successful single-pass run implies non-empty source
+   classes (otherwise the code raises ZeroDivisionError). *)
+Theorem C11_single_pass_nonempty : forall c s h b rest calls,
+  resolve_method s c = MSinglePass ->
+  bootstrap_sample c s h = Ok (b, rest, calls) -> Forall draw_ok calls ->
+  1 <= len (pos b) /\ 1 <= len (neg b) /\ 0 < len (pos s) /\ 0 < len (neg s).
+Proof. exact bs_single_pass_nonempty. Qed.
+Print Assumptions C11_single_pass_nonempty.
+
+(* the former counterexample (pos=[-11,-11], neg=[962], single_pass, np.random.seed(6)), with the
+   history the repaired code now produces: the positive class keeps one score *)
+Example C11_former_witness :
+  let s := mk_scores [(-11)#1; (-11)#1]%Q [962#1]%Q 0 0 Pos Pos false in
+  let c := mkConfig MSinglePass SNone false None in
+  let h := [DBinom 3 (Qmake 6004799503160661 9007199254740992) 1; DBinom 1 (0#1) 0; DBinom 2 (0#1) 0;
+            DBinomVec 2 1 (1#2) [0; 0]; DBinomVec 1 2 (1#1) [2]; DChoice1 2 1] in
+  exists calls, bootstrap_sample c s h = Ok (mkScores [(-11)#1]%Q [962#1; 962#1]%Q 0 0 Pos Pos, [], calls)
+                /\ Forall draw_ok calls.
+Proof.
+  eexists. split; [vm_compute; reflexivity|].
+  repeat constructor; try (vm_compute; congruence); try (intro Hq; vm_compute in Hq; discriminate).
+Qed.
 
 (* Unbiasedness, part 1: every source score is reachable.  For replacement / single pass / dynamic
    some history within the contract returns the whole source (every index once) ... *)
@@ -148,12 +164,15 @@ Theorem C11_mean_parameters_counts_partial : forall s h c h' calls,
 Proof. exact mean_parameters_counts. Qed.
 Print Assumptions C11_mean_parameters_counts_partial.
 
-(* Index draws (both methods): the last two calls have mean multiplicity per source index
-   = drawn_count / source_count for the class, and = 1 under by_label. *)
+(* Index draws (both methods): the two index calls dp, dn have mean multiplicity per source index
+   = drawn_count / source_count for the class, and = 1 under by_label.  Single pass may follow them
+   by at most two correction draws (scalar choice, only when a class drew no sample: the case the
+   property's "wherever the at-least-one correction is not triggered" excludes). *)
 Theorem C11_mean_parameters_index_partial : forall s bl sp h r h' calls,
   sample_indices s bl sp h = Ok (r, h', calls) -> 0 < len (pos s) -> 0 < len (neg s) ->
   exists cn h1 calls1 dp dn,
-    sample_counts s bl h = Ok (cn, h1, calls1) /\ calls = calls1 ++ [dp; dn] /\
+    sample_counts s bl h = Ok (cn, h1, calls1) /\
+    (exists extra, calls = calls1 ++ [dp; dn] ++ extra /\ Forall is_fixup extra /\ (sp = false -> extra = [])) /\
     (draw_mean dp == inject_Z (c_hard_pos cn) / inject_Z (len (pos s)))%Q /\
     (draw_mean dn == inject_Z (c_hard_neg cn) / inject_Z (len (neg s)))%Q /\
     (bl = true -> (draw_mean dp == 1)%Q /\ (draw_mean dn == 1)%Q).
